@@ -136,7 +136,7 @@ func genSSEClient(rt *rapid.T) SSEClientScript {
 		}
 		s.Events = append(s.Events, e)
 	}
-	s.Chunks = rapid.SliceOfN(rapid.IntRange(0, 100000), 0, 3).Draw(rt, "chunks")
+	s.Chunks = rapid.SliceOfN(rapid.IntRange(0, 100000), 0, 4).Draw(rt, "chunks")
 	return s
 }
 
@@ -191,7 +191,13 @@ func runSSEClientInner(s SSEClientScript, res *vt.Result) {
 		}
 		w.Write([]byte(text[start:]))
 	})
-	tr := &memhttp.Transport{Handler: handler}
+	// The same numbers also bound the size of the client's successive body reads, so that read
+	// boundaries fall inside events (between a data line and its blank line, inside a line, ...).
+	var readSizes []int
+	for _, c := range s.Chunks {
+		readSizes = append(readSizes, c%97+1)
+	}
+	tr := &memhttp.Transport{Handler: handler, Chunks: readSizes}
 	ctx := context.Background()
 	conn, err := (&mcp.StreamableClientTransport{Endpoint: "http://mcp.example/mcp", HTTPClient: tr.Client(), DisableStandaloneSSE: true, MaxRetries: -1}).Connect(ctx)
 	if err != nil {
